@@ -7,6 +7,7 @@ from typing import Dict, List, Optional, Set, Tuple
 
 from ..model import Repo, ClassInfo, FuncInfo, AnalysisError, norm, parent, ancestors, enclosing_stmt, const_str
 from ..report import Ctx, RuleResult
+from ..exprs import has_pat, find_pat
 
 # docs/grammar.md, "Notes for when using a lexer": 1. highest priority first, 2. length of match (regexps: longest
 # theoretical match), 3. length of literal / pattern definition, 4. name
@@ -92,9 +93,10 @@ def run(ctx: Ctx) -> RuleResult:
         res.finding(bs, bs.node, 'the scanner is not built from _create_unless(self.terminals, ...)[0]', construct='scanner-input')
     # _create_unless preserves order
     cuf = repo.func('lark.lexer:_create_unless')
-    ok = any(isinstance(n, ast.Assign) and isinstance(n.value, ast.ListComp) and norm(n.value.generators[0].iter) == 'terminals'
-             and norm(n.value.elt) == norm(n.value.generators[0].target) and 'not in embedded_strs' in norm(n.value.generators[0].ifs[0])
-             for n in cuf.body_nodes() if isinstance(n, ast.Assign) and isinstance(n.value, ast.ListComp) and n.value.generators[0].ifs)
+    tparam_ = cuf.positional_names()[0]
+    keep_ = find_pat(cuf.body_nodes(), '$new = [$t for $t in $ts if $t not in $emb]', {'ts': tparam_})
+    ok = bool(keep_) and has_pat(cuf.body_nodes(), 'return ($new, $cb)', {'new': keep_[0][1]['new']}) and \
+        has_pat(cuf.body_nodes(), '$emb.add($st)', {'emb': keep_[0][1]['emb']})
     res.ob('%s %s' % (cuf.loc(), cuf.qual), 'removing embedded keywords preserves the order', ok)
     if not ok:
         res.finding(cuf, cuf.node, '_create_unless does not return the terminals in their given order', construct='unless-order')
@@ -120,16 +122,16 @@ def run(ctx: Ctx) -> RuleResult:
     res.ob('%s %s' % (bm.loc(), bm.qual), 'the remainder continues at terminals[%s:]' % k, ok)
     if not ok:
         res.finding(bm, rest[0] if rest else bm.node, 'chunking drops or repeats terminals (remainder is not terminals[%s:])' % k, construct='chunk-remainder')
-    ok = any(isinstance(n, ast.Call) and norm(n.func) == 'mres.append' for n in bm.body_nodes())
+    comp = find_pat(bm.body_nodes(), '$m = self.re_.compile($p, self.g_regex_flags)')
+    ok = bool(comp) and has_pat(bm.body_nodes(), '$l.append($m)', {'m': comp[0][1]['m']}) and \
+        any(isinstance(n, ast.Return) and isinstance(n.value, ast.Name) for n in bm.body_nodes())
     res.ob('%s %s' % (bm.loc(), bm.qual), 'chunks are kept in order', ok)
     if not ok:
         res.finding(bm, bm.node, 'regex chunks are not appended in order', construct='chunk-order')
     # Scanner.match: first chunk that matches wins; result (text, lastgroup)
     sm = repo.func('lark.lexer:Scanner.match')
     loops = [n for n in sm.body_nodes() if isinstance(n, ast.For)]
-    ok = len(loops) == 1 and norm(loops[0].iter) == 'self._mres' and any(isinstance(n, ast.Return) and 'm.group(0)' in norm(n.value)
-                                                                         and 'm.lastgroup' in norm(n.value) for n in ast.walk(loops[0])
-                                                                         if isinstance(n, ast.Return) and n.value is not None)
+    ok = len(loops) == 1 and norm(loops[0].iter) == 'self._mres' and has_pat(list(ast.walk(loops[0])), 'return ($m.group(0), $m.lastgroup)')
     res.ob('%s %s' % (sm.loc(), sm.qual), 'chunks are tried in order; the first match gives (text, terminal name)', ok)
     if not ok:
         res.finding(sm, sm.node, 'Scanner.match does not return the first chunk\'s match as (group(0), lastgroup)', construct='match')
@@ -192,6 +194,35 @@ def run(ctx: Ctx) -> RuleResult:
                                 'g_regex_flags)' % norm(n)[:90], construct='scanner-config:' + norm(n)[:80], props=['C07', 'C14'])
     if n_sc < 3:
         raise AnalysisError('R-LEX-PRECEDENCE: found %d Scanner constructions, expected at least 3' % n_sc)
+    # ---- every compilation of a terminal's regexp uses the global flags and the configured re module --------------
+    n_cmp = 0
+    for f in repo.functions.values():
+        if f.module.name not in ('lark.lexer', 'lark.parser_frontends'):
+            continue
+        for n in f.body_nodes():
+            if isinstance(n, ast.Call) and isinstance(n.func, ast.Attribute) and n.func.attr == 'compile':
+                recv = norm(n.func.value)
+                if recv in ('re', 'regex'):
+                    res.ob(f_loc(f, n), 'terminal regexps are compiled with the configured re module', False, props=['C07'])
+                    res.finding(f, enclosing_stmt(n), 'a terminal regexp is compiled with the %s module directly, not with the configured '
+                                're/regex module' % recv, construct='compile-module:' + norm(n)[:60], props=['C07'])
+                    continue
+                if not (recv.endswith(('.re', '.re_', '.re_module')) or recv in ('re_',)):
+                    continue
+                n_cmp += 1
+                flags = n.args[1] if len(n.args) > 1 else next((k.value for k in n.keywords if k.arg == 'flags'), None)
+                ok = flags is not None and norm(flags).split('.')[-1] == 'g_regex_flags'
+                res.ob(f_loc(f, n), '%s(<regexp>, %s): global flags applied' % (norm(n.func), norm(flags) if flags is not None else None), ok)
+                if not ok:
+                    res.finding(f, enclosing_stmt(n), 'a terminal regexp is compiled without the global g_regex_flags (%s): this matcher '
+                                'disagrees with its siblings under e.g. re.I' % norm(n)[:80], construct='compile-flags:' + norm(n)[:80])
+            if isinstance(n, ast.Call) and norm(n.func) == '_get_match':
+                ok = len(n.args) == 4 and norm(n.args[3]).split('.')[-1] == 'g_regex_flags'
+                res.ob(f_loc(f, n), 'keyword test matches with the global flags', ok)
+                if not ok:
+                    res.finding(f, enclosing_stmt(n), 'the keyword/identifier test matches without the global flags', construct='get-match-flags')
+    if n_cmp < 3:
+        raise AnalysisError('R-LEX-PRECEDENCE: found %d regexp compilation sites, expected at least 3' % n_cmp)
     # ---- keyword exception --------------------------------------------------------------------------------
     body = cuf
     prio = [n for n in cuf.body_nodes() if isinstance(n, ast.If) and isinstance(n.test, ast.Compare) and isinstance(n.test.ops[0], ast.NotEq)
@@ -213,8 +244,10 @@ def run(ctx: Ctx) -> RuleResult:
     if not ok:
         res.finding(cuf, cuf.node, 'the keyword test is not "the regexp matches the whole string"', construct='unless-fullmatch')
     gm = repo.func('lark.lexer:_get_match')
-    ok = any(isinstance(n, ast.Call) and norm(n.func) == 're_.match' for n in gm.body_nodes()) and \
-        any(isinstance(n, ast.Return) and norm(n.value) == 'm.group(0)' for n in gm.body_nodes() if isinstance(n, ast.Return) and n.value is not None)
+    gp = gm.positional_names()
+    mm_ = find_pat(gm.body_nodes(), '$m = $re.match($rx, $s, $fl)')
+    ok = bool(mm_) and has_pat(gm.body_nodes(), 'return $m.group(0)', {'m': mm_[0][1]['m']}) and \
+        [mm_[0][1][k] for k in ('re', 'rx', 's', 'fl')] == gp[:4]
     res.ob('%s %s' % (gm.loc(), gm.qual), '_get_match returns the text matched at the start', ok)
     if not ok:
         res.finding(gm, gm.node, '_get_match changed', construct='get-match')
@@ -226,34 +259,38 @@ def run(ctx: Ctx) -> RuleResult:
     if not ok:
         res.finding(cuf, cuf.node, 'the flag-subset condition for embedding a keyword in its regexp changed', construct='unless-flags')
     uc = repo.func('lark.lexer:UnlessCallback.__call__')
-    ok = any(isinstance(n, ast.Call) and norm(n.func) == 'self.scanner.fullmatch' and norm(n.args[0]).endswith('.value') for n in uc.body_nodes()) and \
-        any(isinstance(n, ast.If) and norm(n.test) == 'res is not None' and any(norm(s) == 't.type = res' for s in n.body) for n in uc.body_nodes())
+    fm_ = find_pat(uc.body_nodes(), '$r = self.scanner.fullmatch($t.value)')
+    ok = bool(fm_) and has_pat(uc.body_nodes(), 'if $r is not None:\n    $t.type = $r', fm_[0][1])
     res.ob('%s %s' % (uc.loc(), uc.qual), 'a token is retyped as the keyword iff the keyword scanner matches its whole value', ok)
     if not ok:
         res.finding(uc, uc.node, 'UnlessCallback no longer retypes exactly on a full match', construct='unless-callback')
     fm = repo.func('lark.lexer:Scanner.fullmatch')
-    ok = any(isinstance(n, ast.Call) and norm(n.func) == 'mre.fullmatch' for n in fm.body_nodes())
+    ok = has_pat(fm.body_nodes(), 'for $m in self._mres:\n    $r = $m.fullmatch($t)\n    if $r:\n        return $r.lastgroup')
     res.ob('%s %s' % (fm.loc(), fm.qual), 'fullmatch uses re fullmatch', ok)
     if not ok:
         res.finding(fm, fm.node, 'Scanner.fullmatch is not a full match', construct='fullmatch')
-    ok = any(isinstance(n, ast.Call) and norm(n.func) == 'UnlessCallback' and 'Scanner(unless' in norm(n) for n in cuf.body_nodes())
+    ok = has_pat(cuf.body_nodes(), '$cb[$re.name] = UnlessCallback(Scanner($u, $$a, $$b, use_bytes=$$c))') and \
+        has_pat(cuf.body_nodes(), '$u.append($st)')
     res.ob('%s %s' % (cuf.loc(), cuf.qual), 'the callback is registered on the regexp terminal with a scanner over its keywords', ok)
     if not ok:
         res.finding(cuf, cuf.node, 'the keyword callback is not built from the collected keywords', construct='unless-register')
     # ---- next_token -----------------------------------------------------------------------------------------
     nt = repo.func('lark.lexer:BasicLexer.next_token')
-    ok = any(isinstance(n, ast.If) and norm(n.test) == 'not res' and any(isinstance(s, ast.Raise) and 'UnexpectedCharacters' in norm(s.exc) for s in n.body)
-             for n in nt.body_nodes())
+    mres_ = find_pat(nt.body_nodes(), '$r = self.match($$t, $$p)')
+    ok = bool(mres_) and any(isinstance(n, ast.If) and has_pat([n.test], 'not $r', {'r': mres_[0][1]['r']})
+                             and any(isinstance(s, ast.Raise) and 'UnexpectedCharacters' in norm(s.exc) for s in n.body) for n in nt.body_nodes())
     res.ob('%s %s' % (nt.loc(), nt.qual), 'no match at the current offset raises UnexpectedCharacters (the input is covered completely)', ok)
     if not ok:
         res.finding(nt, nt.node, 'a position where no terminal matches is no longer reported', construct='no-match')
-    ok = any(norm(n) == 'ignored = type_ in self.ignore_types' for n in nt.body_nodes() if isinstance(n, ast.Assign)) and \
-        any(isinstance(n, ast.If) and norm(n.test) == 'not ignored' and any(isinstance(s, ast.Return) for s in n.body) for n in nt.body_nodes())
+    ig_ = find_pat(nt.body_nodes(), '$ig = $ty in self.ignore_types')
+    ok = bool(ig_) and any(isinstance(n, ast.If) and has_pat([n.test], 'not $ig', {'ig': ig_[0][1]['ig']})
+                           and any(isinstance(s, ast.Return) for s in n.body) for n in nt.body_nodes())
     res.ob('%s %s' % (nt.loc(), nt.qual), 'ignored terminals are consumed but not returned', ok)
     if not ok:
         res.finding(nt, nt.node, 'the handling of ignored terminals in next_token changed', construct='ignored')
     # zero-width terminals are refused at construction (tokens are non-empty)
-    ok = any(isinstance(n, ast.If) and norm(n.test) == 't.pattern.min_width == 0' and any(isinstance(s, ast.Raise) for s in n.body) for n in init.body_nodes())
+    ok = any(isinstance(n, ast.If) and has_pat([n.test], '$t.pattern.min_width == 0') and any(isinstance(s, ast.Raise) for s in n.body)
+             for n in init.body_nodes())
     res.ob(site, 'zero-width terminals are refused (tokens are non-empty, lexing progresses)', ok)
     if not ok:
         res.finding(init, init.node, 'zero-width terminals are no longer refused', construct='zero-width')
@@ -265,22 +302,32 @@ def run(ctx: Ctx) -> RuleResult:
     res.ob('%s %s' % (ci.loc(), ci.qual), 'per-state lexers and the root lexer are instances of the same BasicLexer class', ok)
     if not ok:
         res.finding(ci, ci.node, 'the contextual lexer does not build its per-state and root lexers from one BasicLexer class', construct='ctx-class')
-    body = ' '.join(norm(s) for s in ci.node.body)
-    ok = 'accepts = set(accepts) | set(conf.ignore) | set(always_accept)' in body and \
-        'lexer_conf.terminals = [terminals_by_name[n] for n in accepts if n in terminals_by_name]' in body
+    cparam, aparam = (ci.positional_names() + ['conf', 'states', 'always_accept'])[0], (ci.positional_names() + ['conf', 'states', 'always_accept'])[2]
+    acc_ = find_pat(ci.body_nodes(), '$a = set($a) | set($c.ignore) | set($aa)', {'c': cparam, 'aa': aparam})
+    ok = bool(acc_) and has_pat(ci.body_nodes(), '$lc.terminals = [$by[$n] for $n in $a if $n in $by]', {'a': acc_[0][1]['a']})
     res.ob('%s %s' % (ci.loc(), ci.qual), 'a state\'s lexer knows the terminals the parser accepts there plus ignored and always-accepted ones', ok)
     if not ok:
         res.finding(ci, ci.node, 'the terminal set of a per-state lexer is no longer accepts | ignore | always_accept', construct='ctx-accepts')
     lx = cl.methods['lex']
-    ok = any(norm(n) == 'lexer = self.lexers[parser_state.position]' for n in lx.body_nodes() if isinstance(n, ast.Assign))
+    psparam = (lx.positional_names() + ['lexer_state', 'parser_state'])[1]
+    sel_ = find_pat(lx.body_nodes(), '$l = self.lexers[$ps.position]', {'ps': psparam})
+    ok = bool(sel_) and has_pat(lx.body_nodes(), '$l.next_token($$s, $ps)', {'l': sel_[0][1]['l'], 'ps': psparam}) and \
+        any(isinstance(a, ast.While) for n, _ in sel_ for a in ancestors(n))
     res.ob('%s %s' % (lx.loc(), lx.qual), 'each token is lexed by the lexer of the parser\'s current state', ok)
     if not ok:
         res.finding(lx, lx.node, 'the contextual lexer does not pick the lexer by parser_state.position for every token', construct='ctx-select')
     ccl = repo.func('lark.parser_frontends:create_contextual_lexer')
-    ok = any('{idx: list(t.keys()) for idx, t in parse_table.states.items()}' in norm(n) for n in ccl.body_nodes() if isinstance(n, ast.DictComp))
+    ok = has_pat(ccl.body_nodes(), '{$i: list($t.keys()) for $i, $t in $pt.states.items()}')
     res.ob('%s %s' % (ccl.loc(), ccl.qual), 'accepted terminals per state are the keys of the parse table row', ok)
     if not ok:
         res.finding(ccl, ccl.node, 'per-state accepted terminals are not read off the parse table', construct='ctx-states')
+    # everything except the scanner-configuration clause concerns C07 only (scan() uses the same lexers on both sides of
+    # its comparison with parse(), so a precedence change does not by itself break C14)
+    for fd in res.findings:
+        if fd.props is None:
+            fd.props = ['C07']
+    for ob in res.obligations:
+        ob.setdefault('props', ['C07'])
     return res
 
 
